@@ -17,6 +17,7 @@ import numpy as np
 
 from . import values
 
+_ADDR = __import__('re').compile(r'0x[0-9a-fA-F]{6,}')
 CRASH_EXIT = 77
 HARNESS = os.path.dirname(os.path.abspath(__file__))
 
@@ -446,7 +447,7 @@ class World:
             tb = traceback.extract_tb(e.__traceback__)
             r['out'] = 'exc'
             r['exc'] = type(e).__name__
-            r['msg'] = str(e).replace(self.scratch, '<scratch>')[:160]
+            r['msg'] = _ADDR.sub('0x?', str(e).replace(self.scratch, '<scratch>'))[:160]
             inner = tb[-1].filename if tb else ''
             # an exception whose innermost frame is harness code (and is not a simulated fault) is a harness problem
             if inner.startswith(HARNESS) and not isinstance(e, (OSError, KeyboardInterrupt, _Propagated)):
